@@ -22,7 +22,7 @@ ASSUMPTIONS = [
 MANIFEST = {'text': 'structural necessary conditions for window delivery: the filtered index is never consulted for a stream without active filters, a window change resets both ranges consistently and renews the id, '
                     'and the sender advances its sent-range exactly to the end of what it sent.'
                     ' Added: search paging continuation equals the loop counter advanced exactly once per examined element; the index builder marks as processed exactly what it filtered; time lookups use partition_point with a strict predicate, binary_search only on unique keys. Added: lookups return the position found by the search primitive unmodified (no clamp / min / arithmetic), also through position helpers. Added: every field of a binary message sent derives from the message at that stream position only (no field of a previously built output message). Added: chunked search paging continues behind the last reported match.',
-            'technique': 'static analysis: who-may-read + dominating-guard (control dependence) check, store pairing, must-pass-through on the CFG Added: filters_active takes into account every filter kind that match_filters decides on. Added: the index builder stores offset + the enumerate() position over the whole slice it was handed (no chunking / skipping adapter in between).'}
+            'technique': 'static analysis: who-may-read + dominating-guard (control dependence) check, store pairing, must-pass-through on the CFG Added: filters_active takes into account every filter kind that match_filters decides on. Added: the index builder stores offset + the enumerate() position over the whole slice it was handed (no chunking / skipping adapter in between). Added: per-stream sends and stream removals of the server loop lie behind the false edge of the pause test; the sender\'s new_end is exactly min(stream length, window end). Added: match_filters quantifies with `any` only (shared with C12 G9).'}
 
 SC = 'adlt::utils::remote_utils::StreamContext'
 
@@ -141,6 +141,11 @@ def run(F, chk):
     check_bin_msg_fields(F, G16)
     G8 = chk.rule('G8', 'index builder: the processed marker advances exactly to the end of what was filtered')
     check_builder_progress(F, G8)
+    G20 = chk.rule('G20', 'match_filters (which messages belong to the filtered sequence) quantifies over each filter collection with `any` only: some positive / no negative / some event filter matches (shared with C12 G9)')
+    import c12 as _c12
+    _c12.check_quantifiers(F, G20, _c12.stream_filter_bodies(F))
+    G19 = chk.rule('G19', 'while the file context is paused the server loop neither sends stream data nor finishes or removes a stream: every websocket write and every stream removal in process_file_context lies behind the false edge of the `paused` test')
+    check_paused_guard(F, G19)
     G18 = chk.rule('G18', 'index builder: the position stored for a matching message is `offset + i` with i the enumerate() position of that message in the whole slice handed in together with the offset (no chunking / skipping adapter between the slice and enumerate)')
     check_stored_index(F, G18)
     G17 = chk.rule('G17', 'a stream counts as filtered (filters_active) whenever any filter kind that match_filters decides on is present: the kinds read by StreamContext::from cover the kinds read by match_filters')
@@ -278,6 +283,10 @@ def check_progress(F, G5):
             val = E.rvalue(s.rv)
             vs = show(val)
             is_min = isinstance(val, tuple) and val[0] == 'call' and val[1].endswith('cmp::min') and 'msgs_to_send' in vs and '.end' in vs
+            # exactly the two bounds: a third one (a per-call cap, `min(min(len, end), sent + K)`) leaves processed messages unsent, and the
+            # one-pass drain removes what was processed - the next round indexes below the drained prefix
+            if is_min and (vs.count('cmp::min(') != 1 or re.search(r'saturating_add|checked_add|wrapping_add', vs)):
+                is_min = False
             # send loops: write_message calls dominated by a range iteration starting at msgs_sent.end; the store must post-dominate them
             sends = [x.i for x in b.calls() if x.term.callee.path.endswith('::write_message') and x.i != blk.i]
             loop_sends = []
@@ -591,6 +600,43 @@ def range_loop_form(b, cfg, E, E2, loops):
 
 # ---------------------------------------------------------------------------------------------
 # G8: the index builder marks as processed exactly what it filtered
+
+def check_paused_guard(F, G19):
+    """A query is finished ("no new messages and everything processed") by the same loop that fetches new messages.  While
+    paused nothing is fetched, so that condition is vacuously true: if the loop ran for a paused context it would send the
+    end-of-query frame and drop the query before its window was served.  Hence the pause test guards the whole function:
+    every write to the websocket and every removal of a stream is dominated by `!fc.paused`."""
+    b = F.get('adlt_bin::remote::process_file_context')
+    if b is None:
+        G19.violation(('anchor-lost', 'process_file_context'), 'process_file_context not found')
+        return
+    G19.fn(b.path)
+    cfg = CFG(b)
+    E = ExprBuilder(cfg, fold_named=True)
+    sites = []
+    loops_ = cfg.loops()
+    for blk in b.calls():
+        p = blk.term.callee.path
+        a0 = (blk.term.args[0].ty or '') if blk.term.args else ''
+        if (re.search(r'WebSocket::<.*>::(write_message|send|write|write_pending)$', p) or p.endswith('::write_message')) and any(blk.i in lb for lb in loops_.values()):
+            sites.append((blk, 'websocket write'))        # the per-stream sends live in the loops over the streams (the extraction progress frames before them do not)
+        elif re.search(r'Vec::<T, A>::(remove|retain|retain_mut|swap_remove|clear|truncate|drain|pop)$', p) and 'StreamContext' in a0:
+            sites.append((blk, 'stream removal'))
+    G19.floor('websocket writes / stream removals in process_file_context', len(sites), 3)
+    tests = 0
+    for (blk, what) in sites:
+        G19.sites += 1
+        ok = False
+        for (c, truth, D) in guards.known(cfg, E, blk.i):
+            if truth is False and re.search(r'\.paused\)?$', show(c)):
+                ok = True
+        if ok:
+            tests += 1
+            G19.ok(sample={'site': b.loc(blk.term.sp), 'kind': what, 'behind': '!fc.paused'})
+        else:
+            G19.violation(('stream-served-while-paused', b.path, what.replace(' ', '-')), 'process_file_context reaches the %s at %s also for a paused file context: with nothing fetched the end-of-query condition is vacuously true, a query is answered with the empty end frame and removed before its window was served' %
+                          (what, b.loc(blk.term.sp)), where=b.loc(blk.term.sp))
+
 
 def check_stored_index(F, G18):
     """filtered_msgs[k] must be the position (in all_msgs) of the k-th matching message.  The matcher gets a slice and the position of
